@@ -202,3 +202,24 @@ Definition quantity_parse_text (nm : names) (qn : qnames) (tab : symtab) (order 
       | _ => QSyntaxError
       end
   end.
+
+(* ---- a quantity as the library's JSON document (the pydantic and SQL composite forms hold the same two fields): the magnitude with
+   its numeric type, and the unit as the TEXT str(unit) ---- *)
+Inductive magkind := KInt | KFloat | KDecimal.
+Record qdoc := MkQD { qd_kind : magkind; qd_value : Z * positive; qd_unit : str }.
+
+Section QuantityDocument.
+  Variables (nm : names) (tab : symtab) (pt : printab) (order : list terminal) (ignore : list positive) (rules : list rule)
+            (infos : list rinfo) (filtered terminals : list positive) (end_sym : positive) (T : table).
+
+  (* Quantity.__json__: None when str(unit) is outside the printable fragment (leading magnitude, symbol-less prefix) *)
+  Definition enc_quantity (k : magkind) (v : Z * positive) (u : unit3) (of : list (positive * Z)) : option qdoc :=
+    match print_terms pt u of with PTerms l => Some (MkQD k v (render l)) | _ => None end.
+
+  (* Quantity.__from_json__: Quantity(magnitude, Unit.parse(text)) *)
+  Definition dec_quantity (d : qdoc) : option (magkind * (Z * positive) * unit3) :=
+    match unit_parse_text nm tab order ignore rules infos filtered terminals end_sym T (qd_unit d) with
+    | TUnit (POk u) => Some (qd_kind d, qd_value d, u)
+    | _ => None
+    end.
+End QuantityDocument.
